@@ -100,6 +100,10 @@ Definition check (c : case) : verdict :=
       (* the property: accepted against the true root with the true leaf count => bound *)
       viol (negb (ok_i && bytes_eqb (unhex root_h) (root Hs its)
                   && (pf_total p =? Z.of_nat (List.length its))) || bound) 3;
+      (* accepted => the root was recomputed from (index, total, leaf hash, aunts) *)
+      viol (negb ok_i ||
+            match from_aunts Hs (pf_index p) (pf_total p) (leaf_hash Hs (unhex leaf)) (rev (pf_aunts p)) with
+            | Some h => bytes_eqb h (unhex root_h) | None => false end) 7;
       mism (Bool.eqb (verify Hs (unhex root_h) (unhex leaf) p) ok_i) 15;
       mism (Bool.eqb (proof_validate_basic p) vb_i) 16 ]
   | CSecond items items' root_i root_i' =>
